@@ -27,7 +27,9 @@ def sh(cmd, cwd, timeout=1200):
 def features_of(demo_text, pid):
     m = re.search(r"--features[ =]+([\w,]+)", demo_text)
     if m:
-        return m.group(1)
+        # the nightly-only sibling is not needed to show a change (and does not build on stable)
+        fs = [f for f in m.group(1).split(",") if f and f != "nightly"]
+        return ",".join(fs)
     return {"C18": "serde", "C19": "rayon"}.get(pid, "")
 
 
